@@ -196,7 +196,7 @@ def make_reactive_hook(reactive, faults):
                 elif act == "et0_spike":
                     W[i][3] = float(r["mag"])
                 elif act == "et0_floor":
-                    W[i][3] = 0.1
+                    W[i][3] = float(r.get("mag") or 0.1)
                 else:
                     raise ValueError(act)
             r["_fired"] += 1
@@ -220,7 +220,7 @@ def gen_reactive(rng, n_max=2, triggers=None):
         elif act == "et0_spike":
             r.update(mag=rng.choice([8.0, 11.0, 14.0]), len=rng.choice([1, 3, 8]))
         else:
-            r.update(mag=0.1, len=rng.choice([1, 3, 8]))
+            r.update(mag=rng.choice([0.1, 0.05, 0.02]), len=rng.choice([1, 3, 8]))
         out.append(r)
     return out
 
